@@ -136,7 +136,7 @@ var mayForgetND = porcupine.NondeterministicModel{
 
 var mayForget = mayForgetND.ToModel()
 
-const checkerTimeout = 120 * time.Second
+const checkerTimeout = 300 * time.Second
 
 type keyVerdict struct {
 	Result  string  `json:"porcupine"`           // ok | illegal | unknown
@@ -215,6 +215,7 @@ func directCheck(ops []opRec) (class string, bad, because, stored *opRec) {
 // classified violation, extraction of partial linearisations) to the first few
 // violating partitions of a run; the verdict never depends on it.
 var witnessBudget atomic.Int64
+var fallbackSpent atomic.Int64
 
 // checkKey decides one key partition (ops on that key + whole-store deletes).
 func checkKey(ops []opRec, timeout time.Duration, porcupineOnly bool) keyVerdict {
@@ -244,6 +245,15 @@ func checkKey(ops []opRec, timeout time.Duration, porcupineOnly bool) keyVerdict
 			}
 		}
 		return v
+	}
+	if v.Class == "" {
+		// fallback: no witness linearisation. Generous bound, but the sum over a run is
+		// bounded too so that a loaded machine cannot push the run past the driver's watchdog
+		if fallbackSpent.Load() > int64(150*time.Second) {
+			timeout = 10 * time.Second
+		}
+		t0 := time.Now()
+		defer func() { fallbackSpent.Add(int64(time.Since(t0))) }()
 	}
 	switch porcupine.CheckOperationsTimeout(mayForget, h, timeout) {
 	case porcupine.Ok:
